@@ -448,6 +448,7 @@ def main():
     known = load_known()
     internal = []
     unmodelled = {}
+    open_divergences = []
     for i, line in enumerate(lines):
         ms = mo_sp[i]
         if ms == "bad-op":
@@ -479,7 +480,12 @@ def main():
                 else:
                     violations.append({"line": line, "mode": mode, "crate": r, "spec": sp, "model": mo})
             if r != mo and mo != "*":
-                divergences.append({"line": line, "mode": mode, "crate": r, "model": mo, "spec": sp})
+                if ("*" in sp or "|" in sp) and sp_match(r, sp):
+                    # the property leaves this answer open (spec is a set) and the crate's answer is in the set:
+                    # the model merely picked another member.  Not needed for the property -> WARNING only.
+                    open_divergences.append({"line": line, "mode": mode, "crate": r, "model": mo, "spec": sp})
+                else:
+                    divergences.append({"line": line, "mode": mode, "crate": r, "model": mo, "spec": sp})
     ctx["bins"] = bins
     ctx["run_chunked"] = run_chunked
     if hasattr(mod, "post"):
@@ -540,6 +546,7 @@ def main():
             "samples": samples,
             "value_class_distribution": dist, "outcome_kinds": outcome_kinds,
             "model_divergences": len(divergences), "spec_violations": len(violations),
+            "divergences_where_property_leaves_answer_open": len(open_divergences),
             "known_findings_hit": {k: v["n"] for k, v in known_hits.items()},
             "configs": sorted(set(l.split(" ")[1] for l in lines)),
             "ops_not_modelled": unmodelled,
@@ -557,6 +564,9 @@ def main():
     evpath = os.path.join(EVID, "dev", pid + ".json") if (a.skip_proof or a.replay) else os.path.join(EVID, pid + ".json")
     os.makedirs(os.path.dirname(evpath), exist_ok=True)
     json.dump(ev, open(evpath, "w"), indent=1)
+    if open_divergences:
+        e = open_divergences[0]
+        print(f"WARNING: crate and model differ on {len(open_divergences)} requests whose answer the property leaves open (crate answer allowed by the spec), e.g. {e['line'][:120]} -> crate {e['crate'][:40]} model {e['model'][:40]} spec {e['spec'][:40]}")
     if unmodelled:
         print("WARNING: operations sent by the generator but unknown to the Lean driver (skipped): " + ", ".join(f"{k}x{v}" for k, v in sorted(unmodelled.items())))
     if status == 0:
